@@ -101,10 +101,10 @@ def make_overlay(cid, part, workdir):
             fc["conc"] = False
     if instr:
         build_tools()
-        outdir = os.path.join(workdir, "instr")
+        outdir = os.path.join(workdir, "instr-" + part["name"])
         shutil.rmtree(outdir, ignore_errors=True)
         os.makedirs(outdir)
-        cfgpath = os.path.join(workdir, "instr.json")
+        cfgpath = os.path.join(workdir, "instr-%s.json" % part["name"])
         with open(cfgpath, "w") as fh:
             json.dump(instr, fh)
         p = subprocess.run([os.path.join(VERIF, "bin", "vinstr"), "-repo", REPO, "-cfg", cfgpath,
@@ -117,7 +117,7 @@ def make_overlay(cid, part, workdir):
     extra = os.environ.get("VERIF_EXTRA_OVERLAY")
     if extra:
         replace.update(json.load(open(extra)))
-    ov = os.path.join(workdir, "overlay.json")
+    ov = os.path.join(workdir, "overlay-%s.json" % part["name"])
     with open(ov, "w") as fh:
         json.dump({"Replace": replace}, fh, indent=1)
     return ov
@@ -164,6 +164,8 @@ def run_shard(binpath, part, tier, shard, shards, workdir, only_case=None, seed=
                 os.remove(os.path.join(workdir, f))
         env["GORACE"] = "log_path=%s halt_on_error=0 exitcode=0" % racelog
         env["VERIF_RACELOG"] = racelog
+        env["VERIF_OVERLAY"] = os.path.join(workdir, "overlay-%s.json" % part["name"])
+        env["VERIF_INSTRCFG"] = os.path.join(workdir, "instr-%s.json" % part["name"])
     cmd = [binpath, "-test.run", "^%s$" % part["run"], "-test.timeout", "0", "-test.count", "1"]
     memkb = part.get("mem_kb", 12 * 1024 * 1024)
     sh = "ulimit -v %d; exec \"$@\"" % memkb
